@@ -874,6 +874,9 @@ V("C19", "benign-threshold-helper", L,
 V("C19", "threshold-helper-no-handler", L,
   [("def sensors_temperatures():", "def _mdeg(value):\n    if value is None:\n        return None\n    return float(value) / 1000.0\n\n\ndef sensors_temperatures():"),
    ("        if high is not None:\n            try:\n                high = float(high) / 1000.0\n            except ValueError:\n                high = None\n        if critical is not None:\n            try:\n                critical = float(critical) / 1000.0\n            except ValueError:\n                critical = None\n", "        high = _mdeg(high)\n        critical = _mdeg(critical)\n")], "fires:C19.R5")
+V("C19", "defect-F20-returns", "psutil/_psbsd.py",
+  ("                continue\n            min_freq = max_freq = None\n            if available_freq:",
+   "                continue\n            if available_freq:"), "fires:C19.R5")
 # ----------------------------------------------------------------- C17
 UC = "psutil/arch/linux/users.c"
 PC = "psutil/arch/linux/proc.c"
